@@ -198,3 +198,57 @@ func closureEscapesAnywhere(sh *Shared, cs *ContractSet, fn *ssa.Function) bool 
 	}
 	return false
 }
+
+// writeOnceCell: the Alloc is a variable that is assigned exactly once (its initialisation: a parameter copy or a
+// := of a captured variable) and otherwise only read, in its function and in every closure that captures it. Go's
+// closures are the only code that can reach a captured variable, so whoever runs them (libraries, goroutines, unknown
+// callees) cannot change it: its value survives every havoc.
+func (u *Unit) writeOnceCell(a *ssa.Alloc) bool {
+	if a.Heap == false && a.Comment == "" {
+		return false
+	}
+	stores := 0
+	var check func(v ssa.Value, depth int) bool
+	check = func(v ssa.Value, depth int) bool {
+		if depth > 5 {
+			return false
+		}
+		refs := v.Referrers()
+		if refs == nil {
+			return true
+		}
+		for _, r := range *refs {
+			switch x := r.(type) {
+			case *ssa.DebugRef:
+			case *ssa.UnOp:
+				if x.Op != token.MUL {
+					return false
+				}
+			case *ssa.Store:
+				if x.Val == v || x.Addr != v {
+					return false
+				}
+				stores++
+			case *ssa.MakeClosure:
+				fn, ok := x.Fn.(*ssa.Function)
+				if !ok {
+					return false
+				}
+				for i, b := range x.Bindings {
+					if b == v {
+						if i >= len(fn.FreeVars) || !check(fn.FreeVars[i], depth+1) {
+							return false
+						}
+					}
+				}
+			default:
+				return false
+			}
+		}
+		return true
+	}
+	if !check(a, 0) {
+		return false
+	}
+	return stores <= 1
+}
